@@ -39,6 +39,33 @@ func init() {
 		}
 		return res
 	}
+	replayExtra["pipeline"] = func(f []string) string {
+		var ref int
+		fmt.Sscanf(f[2], "%d", &ref)
+		raw := []byte{}
+		if len(f) > 3 {
+			raw, _ = hex.DecodeString(f[3])
+		}
+		s := string(raw)
+		c := coding.BestCoding(s)
+		if f[1] == "bestsafe" {
+			c = coding.BestSafeCoding(s)
+		}
+		parts, err := pdu.ComposeMultipartShortMessage(s, c, uint16(ref))
+		res := fmt.Sprintf("text=%s detected data_coding=%d err=%v parts=%d", describeText([]rune(s)), byte(c), err, len(parts))
+		if x, found := firstRejected(c, s); found {
+			res += fmt.Sprintf("; the encoder of data_coding %d rejects %s (rune %d)", byte(c), uplus(x), indexRune([]rune(s), x))
+		}
+		back := ""
+		for _, p := range parts {
+			d, _, _ := implDecode(p.DataCoding, p.Message)
+			back += d
+		}
+		if err == nil {
+			res += fmt.Sprintf("; parts read back as the text: %v", back == s)
+		}
+		return res
+	}
 	replayExtra["multipart-history"] = func(f []string) string {
 		res := ""
 		for _, st := range f[1:] {
@@ -203,7 +230,7 @@ func (cx *c09ctx) checkCompose(s string) {
 		r.Fail("compose/panic", "Compose panicked", in, "panic", "a message or ErrShortMessageTooLarge")
 		r.Case(in, fmt.Sprintf("compose_out_eq (compose %s) Panic", coqRunes(runes)))
 		return
-	case err == pdu.ErrShortMessageTooLarge:
+	case isTooLarge(err):
 		r.Count(in, true, "compose: does not fit one message")
 		r.Case(in, fmt.Sprintf("compose_out_eq (compose %s) (Err ESize)", coqRunes(runes)))
 		return
@@ -244,6 +271,9 @@ func corrC09(r *Run) {
 	r.Import("Model.IntervalMap")
 	r.Import("Model.Charset")
 	r.Import("Model.Detect")
+	r.Import("Model.Splitter")
+	r.Import("Model.Compose")
+	r.Import("Model.ComposePipeline")
 	r.PerShard(100)
 	r.Rule = "every Unicode scalar value as a one-character text through BestCoding and BestSafeCoding, the returned coding's encoder and decoder " +
 		"(exhaustive, direct); random mixed-script texts per target coding (runes the alphabet table of the target admits; GSM texts with every septet " +
@@ -428,6 +458,51 @@ func corrC09(r *Run) {
 			cx.checkHistory(0, nil, false, texts, fmt.Sprintf("history of %d Compose calls", k))
 		}
 	}
+	// ---- long texts: the detectors must look at the WHOLE text (a rune the coding cannot carry may come after any
+	// number of runes / octets), and the pipeline BestCoding -> ComposeMultipartShortMessage -> decode every part -> join
+	{
+		foreign := []rune{0x1F600, 0x0416, 0x05D0, 0x65E5, 0xAC00, 0x00E9, 0x20AC, 0x0E01, 0x10000, 0x0100}
+		lens := [][2]int{{257, 140}, {1025, 200}}
+		if !r.Quick {
+			lens = append(lens, [2]int{300, 700}, [2]int{2000, 3000})
+		}
+		for pi, p := range pools {
+			name := labelName(p.dc)
+			small := p.dc != coding.ShiftJISCoding && p.dc != coding.EUCKRCoding // small encoder tables: long texts are cheap for the model
+			ls := lens
+			if small {
+				ls = append(append([][2]int{}, lens...), [2]int{3000, 2001})
+			}
+			for li, lh := range ls {
+				ln := lh[0] + r.Rng.Intn(lh[1])
+				rs := make([]rune, 0, ln+1)
+				for k := 0; k < ln; k++ {
+					x := p.good[r.Rng.Intn(len(p.good))]
+					if p.dc == coding.GSM7BitCoding && x == '\r' {
+						x = 'a'
+					}
+					rs = append(rs, x)
+				}
+				model := small || ln <= 600
+				emitLong(cx, string(rs), name+" long text", model, uint16(r.Rng.Intn(65536)))
+				// one rune of another repertoire at the very end / somewhere behind the first 256 runes (1024 octets)
+				for v := 0; v < 2; v++ {
+					f := foreign[(pi+li+v*3+r.Rng.Intn(2))%len(foreign)]
+					var t []rune
+					if v == 0 {
+						t = append(append([]rune{}, rs...), f)
+					} else {
+						at := 256 + r.Rng.Intn(ln-255)
+						if r.Rng.Intn(2) == 0 && ln > 1100 {
+							at = 1024 + r.Rng.Intn(ln-1023)
+						}
+						t = append(append(append([]rune{}, rs[:at]...), f), rs[at:]...)
+					}
+					emitLong(cx, string(t), name+" long text with one rune of another repertoire behind the first 256", model && v == 0, uint16(255+r.Rng.Intn(2)))
+				}
+			}
+		}
+	}
 	n := r.N(22, 800)
 	for _, p := range pools {
 		name := labelName(p.dc)
@@ -475,8 +550,124 @@ func corrC09(r *Run) {
 				bucket = name + " text with a foreign-script rune"
 			}
 			emit(string(rs), bucket)
+			if i%11 == 10 || i%13 == 5 {
+				cx.checkPipeline("best", coding.BestCoding, string(rs), uint16(r.Rng.Intn(65536)), true)
+			}
 		}
 	}
+}
+
+// emitLong: one long text through both detectors (direct: the returned coding must encode the whole text and decode
+// back), the model's labels, and the pipeline detector -> ComposeMultipartShortMessage for both detectors.
+func emitLong(cx *c09ctx, s, bucket string, model bool, ref uint16) {
+	r := cx.r
+	runes := []rune(s)
+	key := fmt.Sprintf("text %s", hex.EncodeToString([]byte(s)))
+	r.Count(key, true, bucket)
+	c, out, ok := cx.checkText("best", coding.BestCoding, s)
+	cs, _, _ := cx.checkText("bestsafe", coding.BestSafeCoding, s)
+	txt := coqText(runes)
+	r.Case("best "+clip(key, 60), fmt.Sprintf("(dc_of_label (best %s) =? %d) && (dc_of_label (best_safe %s) =? %d)", txt, byte(c), txt, byte(cs)))
+	if model {
+		r.Case("encode_l best "+clip(key, 60), fmt.Sprintf("same_out (encode_l %s %s) %s", coqLabel(c), txt, coqOutBytes(out, ok, false)))
+		if ok {
+			d, dok, dpan := implDecode(c, out)
+			r.Case("decode_l best "+clip(key, 60), fmt.Sprintf("same_out (decode_l %s %s) %s", coqLabel(c), coqHex(out), coqOutRunes(d, dok, dpan)))
+		}
+	}
+	cx.checkPipeline("best", coding.BestCoding, s, ref, model)
+	if cs != c {
+		cx.checkPipeline("bestsafe", coding.BestSafeCoding, s, ref, model && len(runes) <= 1500)
+	}
+}
+
+// checkPipeline: text -> detector -> ComposeMultipartShortMessage with the detected coding -> every part decoded with the
+// coding it carries -> joined.  C09: never fails for lack of an encoding (an error is acceptable only as "too large" /
+// "too many parts"), never stores octets that read back as another text.
+func (cx *c09ctx) checkPipeline(op string, detect func(string) coding.DataCoding, s string, ref uint16, model bool) {
+	r := cx.r
+	runes := []rune(s)
+	c := detect(s)
+	name := labelName(c)
+	in := fmt.Sprintf("pipeline %s %d %s", op, ref, hex.EncodeToString([]byte(s)))
+	var parts []pdu.ShortMessage
+	var err error
+	pan, msg := guard(func() { parts, err = pdu.ComposeMultipartShortMessage(s, c, ref) })
+	r.Count(in, true, "pipeline "+op+" -> multipart: "+name)
+	cls := 0
+	switch {
+	case pan:
+		cls = 2
+		r.Fail("pipeline/"+name+"/panic", "ComposeMultipartShortMessage panicked on the detected coding", in, msg, "parts or an error")
+	case err != nil:
+		cls = 1
+		x, found := firstRejected(c, s)
+		switch {
+		case found && inRanges(cx.known[c], x):
+			// finding D17, reported for this text by the detector test above (class best/<coding>/alphabet-admits-unencodable-rune)
+		case found:
+			r.Fail("pipeline/"+name+"/unencodable/"+uplus(x), "composing with the detected coding fails for lack of an encoding", in,
+				fmt.Sprintf("%s returned data_coding %d, error %v (the encoder rejects %s at rune %d of %d)", op, byte(c), err, uplus(x), indexRune(runes, x), len(runes)), "parts")
+		case !isTooLarge(err) && !isTooMany(err):
+			r.Fail("pipeline/"+name+"/fails-for-lack-of-an-encoding", "composing with the detected coding fails although the encoder accepts every character", in,
+				fmt.Sprintf("%s returned data_coding %d, error %v", op, byte(c), err), "parts, or a refusal for size")
+		default:
+			r.Hist["pipeline refused for size: "+name]++
+		}
+	default:
+		var pieces [][]rune
+		var joined []rune
+		okAll := true
+		for i, p := range parts {
+			if p.UDHeader.Len()+len(p.Message) > 140 {
+				r.Fail("pipeline/"+name+"/part-exceeds-140", "a part exceeds 140 octets", in, fmt.Sprintf("part %d/%d: %d + %d octets", i+1, len(parts), p.UDHeader.Len(), len(p.Message)), "at most 140")
+			}
+			var d string
+			var dok bool
+			pc := p.DataCoding
+			d, dok, _ = implDecode(pc, p.Message)
+			if !dok {
+				okAll = false
+				r.Fail("pipeline/"+name+"/part-does-not-decode", "a part does not decode with the data coding it carries", in,
+					fmt.Sprintf("part %d/%d data_coding=%d octets=%x", i+1, len(parts), byte(pc), p.Message), "decodes")
+				break
+			}
+			pieces = append(pieces, []rune(d))
+			joined = append(joined, []rune(d)...)
+		}
+		if okAll && !eqRunes(joined, runes) {
+			if c == coding.GSM7BitCoding && gsmJoin(runes, pieces, nil) {
+				// a segment of 8k septets ending in CR reads back without it: the C08 rule, per part
+				r.Hist["pipeline: GSM 7-bit part lost its final CR (C08 rule)"]++
+			} else {
+				r.Fail("pipeline/"+name+"/parts-read-back-as-another-text", "the parts, decoded with the coding they carry and joined, are not the text", in,
+					fmt.Sprintf("%d parts, joined %s", len(parts), describeText(joined)), "the text "+describeText(runes))
+			}
+		}
+	}
+	if model {
+		var obs []string
+		for _, p := range parts {
+			obs = append(obs, fmt.Sprintf("(%s, %s)", coqUDH(p.UDHeader), coqHex(p.Message)))
+		}
+		if cls != 0 {
+			obs = nil
+		}
+		fn := "best"
+		if op == "bestsafe" {
+			fn = "best_safe"
+		}
+		r.Case(clip(in, 80), fmt.Sprintf("pipeline_case %s %d %s %d %d %s", fn, ref, coqText(runes), byte(c), cls, coqList(obs)))
+	}
+}
+
+func indexRune(rs []rune, x rune) int {
+	for i, y := range rs {
+		if y == x {
+			return i
+		}
+	}
+	return -1
 }
 
 // ---------------------------------------------------------------- histories on ONE reused ShortMessage value
@@ -524,7 +715,7 @@ func (cx *c09ctx) checkHistory(presetDC byte, presetMsg []byte, usePreset bool, 
 		case pan:
 			st.status = 3
 			r.Fail("compose-history/panic", "Compose panicked on a reused ShortMessage", in, "panic at "+where, "a message or an error")
-		case err == pdu.ErrShortMessageTooLarge:
+		case isTooLarge(err):
 			st.status = 1
 		case err != nil:
 			st.status = 2
